@@ -546,10 +546,18 @@ class NPlatePerCellLineSmoother(RetrospectivePlateSmoother):
         for plate in screen.plates:
             plate_counts[self._get_plate_sample_id(plate)] += 1
 
+        sample_ids_to_drop = []
+
         for sample_id, plate_count in plate_counts.items():
             if plate_count < self.min_n_cell_line_plates:
                 logger.info("Dropping all plates for sample {}".format(sample_id))
-                screen = screen.subset(screen.sample_ids != sample_id).to_screen()
+                sample_ids_to_drop.append(sample_id)
+
+        if sample_ids_to_drop:
+            # select on the ids of the input screen: to_screen() re-encodes sample ids
+            screen = screen.subset(
+                ~np.isin(screen.sample_ids, sample_ids_to_drop)
+            ).to_screen()
 
         return screen
 
